@@ -45,7 +45,12 @@ def followup(stage, lines, model, checked, release, tier, rng):
                     _st["an"].append((L[-1], s, sk, K.frame(msg, ctx, "sha256")))
                 # crafted secret keys (extreme t0) make the ||c t0|| >= gamma2 and hint-count rejections reachable
                 small = p.gamma2 == (K.S.Q - 1) // 88
-                for (mm, fr, cnt) in ((1, 1.0, (150 if small else 10)), (p.k, 0.3, 20)):
+                # (all rows extreme: most iterations are rejected -- about 16 per signature for gamma2 = (q-1)/32 with k = 6, hundreds
+                # for the other sets -- so that long rejection streaks, where an attempt cap or a "give up and return" path would
+                # show, are reached)
+                # (tuned so that the u16 nonce budget of the code, 65535 / l iterations, is never approached: gamma2 = (q-1)/88
+                # with 70 % extreme coefficients rejects about 60 iterations per signature)
+                for (mm, fr, cnt) in ((1, 1.0, (150 if small else 10)), (p.k, 0.3, 20), (p.k, (0.7 if small else 1.0), (40 if small else (120 if p.k == 6 else 30)))):
                     csk = K.craft_sk(s, sk, mm, fr, rng)
                     for _ in range(cnt if tier == "quick" else 4 * cnt):
                         msg = R(6)
